@@ -420,6 +420,8 @@ def run(tier, seed, proof):
                 record(name, scn, r, tier, seed, res)
     finally:
         ex.shutdown(wait=True, cancel_futures=True)
+    if not res.impl_violations and not res.divergences:
+        single_loop_part(tier, seed, res)
     res.extra["lts_action_coverage"] = cov
     res.extra["run_endings"] = ends
     res.extra["poll_methods"] = methods
@@ -429,6 +431,69 @@ def run(tier, seed, proof):
     res.extra["owner_quiescence_checks"] = quiesced
     res.extra["artefact_runs_discarded"] = artefacts
     return res
+
+
+def lost_post_oracle(log):
+    """single-loop logs (harness/loop_h.c): an event posted to a registered iv_event (from another thread: XPOST, or by the owner: API
+    evPost) must have its handler run before the owner starts its second kernel wait after the post"""
+    reg, pending, waits = set(), {}, 0
+    want = None
+    for n, l in enumerate(log.splitlines(), 1):
+        w = l.split()
+        if not w:
+            continue
+        if w[0] == "API" and len(w) > 2 and w[1] in ("evRegister", "evUnregister", "evPost"):
+            want = (w[1], w[2], n)
+            if w[1] == "evUnregister":
+                reg.discard(w[2]); pending.pop(w[2], None)
+            elif w[1] == "evPost" and w[2] in reg:
+                pending.setdefault(w[2], (waits, n))
+        elif w[0] == "RET" and want and want[0] == "evRegister":
+            if w[1] == "0":
+                reg.add(want[1])
+            want = None
+        elif w[0] == "XPOST" and w[1] in reg:
+            pending.setdefault(w[1], (waits, n))
+        elif w[0] == "CB" and w[1] in pending:
+            pending.pop(w[1])
+        elif w[0] == "FREE" and w[1] in pending:
+            pending.pop(w[1])
+        elif w[0] == "WAIT":
+            waits += 1
+            for e, (w0, ln) in pending.items():
+                if waits - w0 > 1:
+                    return f"event {e} posted at line {ln} was not delivered although its owner has entered the kernel wait {waits - w0} times since (line {n})"
+    return None
+
+
+def single_loop_part(tier, seed, res):
+    """the owner's side of iv_event inside one loop (kick in the same epoll batch as the timer descriptor or as ready descriptors,
+    handlers that unregister what the batch still holds): the enumerated loop families of C01-C07, judged by the lost-post oracle and
+    replayed through the L1 machine"""
+    from . import l1, loopgen
+    ok, log = l1.build()
+    if not ok:
+        res.divergences.append(("loop harness no longer builds: " + log[-300:], None))
+        return
+    cases = [c for c in loopgen.ktimer_cases(seed) if "xpost" in " ".join(c[1])] + [c for c in loopgen.retract_cases(seed) if "-event-" in c[0]]
+    n = 0
+    with concurrent.futures.ThreadPoolExecutor(max_workers=common.NCPU) as ex:
+        for r in common.bounded_map(ex, lambda c: l1.run_case(*c), cases):
+            n += 1
+            res.evaluations += 1
+            msg = lost_post_oracle(r.log)
+            if msg:
+                def pred(ls):
+                    return lost_post_oracle(l1.run_case("s", ls).log) is not None
+                small = l1.shrink_scenario(r.lines, pred, budget=60)
+                pth = common.write_case(PROP, r.name, ["# single-loop case (replayed by vlib/l1.py)"] + small, tier, seed, ext="scn")
+                res.impl_violations.append(("c08:loop:lost-post", "implementation violates C08: " + msg, pth))
+                break
+            d = l1.diverging(r)
+            if d and not res.divergences:
+                # remember the first divergence, but keep looking for a concrete lost post
+                res.divergences.append(("single-loop part: " + d[:300], common.write_case(PROP, r.name + "-div", ["# single-loop case (replayed by vlib/l1.py)"] + r.lines, tier, seed, ext="scn")))
+    res.extra["single_loop_cases"] = n
 
 
 def search(tier, seed, proof):
@@ -452,6 +517,13 @@ def search(tier, seed, proof):
 
 
 def replay(path):
+    if "# single-loop case" in open(path).read():
+        from . import l1
+        rc = l1.replay(path)
+        lines = [l.rstrip("\n") for l in open(path) if l.strip() and not l.startswith("#")]
+        msg = lost_post_oracle(l1.run_case("replay", lines).log)
+        print("--- lost-post oracle:", msg or "ok")
+        return 1 if (rc or msg) else 0
     scn = [l.rstrip("\n") for l in open(path) if l.strip() and not l.startswith("#")]
     ok, log = build()
     if not ok:
